@@ -421,7 +421,7 @@ def run(ctx):
     # the overall degree of divergence that is subtracted for spanning subsets, and the L it contains, are the graph's
     from .kernels import graph_dod_clause
     ctx.rule("C05-f", "the ω(G) subtracted for spanning subsets is Σ_e w_e − L·D/2 with L the loop-number routine's value on all edges (sum over components)")
-    guarded_clause(ctx, "C05-f", "preprocessing::TropicalGraph::from_graph", "graph-dod", lambda: graph_dod_clause(ctx, "C05-f"))
+    guarded_clause(ctx, "C05-f", "preprocessing::TropicalGraph::from_graph", "graph-dod", lambda: graph_dod_clause(ctx, "C05-f", topology=True))
     if ctx.cfg == "default":
         from ..fixtures import detectors_alive
         ctx.rule("C05-z", "positive examples: ambient-callee and hash-order detectors fire on fixtures/")
